@@ -14,11 +14,11 @@ from .worlds import World, build_sim, make_config, make_env, mk_station, mk_vehi
 class FifoWorld(World):
     name = "W-fifo"
 
-    def __init__(self, plugs=("DCFC",), small: bool = False, pairs: bool = True, name: str = "", full_v1: bool = False, t0: bool = False, midnight: bool = False, fleets: bool = False):
+    def __init__(self, plugs=("DCFC",), small: bool = False, pairs: bool = True, name: str = "", full_v1: bool = False, t0: bool = False, midnight: bool = False, fleets: bool = False, human: int = 0):
         super().__init__()
         self.pairs = pairs
         self.name = name or ("W-fifo" + ("/2plugs" if len(plugs) > 1 else "") + ("/small" if small else "") + ("/full-arrival" if full_v1 else "") + ("/t0" if t0 else "")
-                             + ("/midnight" if midnight else "") + ("/fleets" if fleets else ""))
+                             + ("/midnight" if midnight else "") + ("/fleets" if fleets else "") + (f"/human-off-after-{human}" if human else ""))
         S = sites()
         # t0: no early unplugging by the driver (soc limit 1.0), so that a charging vehicle leaves through the default
         # transition of the update phase when its battery is full (power-curve branch stops just below capacity)
@@ -27,7 +27,14 @@ class FifoWorld(World):
         t_start = 0 if t0 else (2 * 86400 - 180 if midnight else 8 * 3600)
         cfg = make_config(step=60, cancel=240, idle_timeout=100000, start=t_start, end=3 * 86400,
                           dispatcher={"ideal_fastcharge_soc_limit": 1.0} if t0 else None)
-        self.env = make_env(cfg, fleets=("f1",) if fleets else ())
+        schedules = None
+        if human:
+            def sched(sim, vehicle_id, _end=t_start + 60 * human):  # on shift for the first `human` steps after the start state
+                return int(sim.sim_time) < _end
+
+            schedules = {"early": sched}
+            self.keep_tod = True
+        self.env = make_env(cfg, fleets=("f1",) if fleets else (), schedules=schedules)
         fl = (lambda vid: ("f1",) if fleets and vid in ("v5", "v3") else ())
         env = self.env
         rn = HaversineRoadNetwork(sim_h3_resolution=15)
@@ -40,6 +47,13 @@ class FifoWorld(World):
         v3 = mk_vehicle(env, rn, "v3", S["M1"], "quiet", soc=0.3, fleets=fl("v3"))
         # full_v1: a small-battery vehicle that is still "full" when it arrives (must not block the queue)
         v1 = mk_vehicle(env, rn, "v1", S["N2"], "small", energy=1.0) if full_v1 else mk_vehicle(env, rn, "v1", S["N2"], "quiet", soc=0.3)
+        bases = ()
+        if human:
+            # v1 is driven by a human who goes off shift during the run; no plug at home, so on the way home he wants to charge
+            from .worlds import mk_base
+
+            v1 = mk_vehicle(env, rn, "v1", S["N2"], "quiet", soc=0.3, schedule_id="early", home_base_id="hb")
+            bases = (mk_base(rn, "hb", S["F1"], stalls=1, station_id=None),)
         if t0:
             # an initial layout at simulation time 0, built with the activities' own public enter():
             # v9 charging, v5 standing at the station and already queueing since t = 0
@@ -54,7 +68,7 @@ class FifoWorld(World):
             assert err is None and start is not None and int(start.vehicles["v5"].vehicle_state.enqueue_time) == 0
             self.starts = {"t0:v9-charging,v5-queued": start}
         else:
-            init = build_sim(env, rn, vehicles=(v9, v5, v3, v1), stations=(s0,), start=t_start)
+            init = build_sim(env, rn, vehicles=(v9, v5, v3, v1), stations=(s0,), bases=bases, start=t_start)
             start, _ = self.step(init, (("I", "ChargeStation", "v9", "s0", "DCFC"),))
             assert start.vehicles["v9"].vehicle_state.__class__.__name__ == "ChargingStation"
             self.starts = {"v9-charging": start}
